@@ -205,6 +205,23 @@ class ExprMixin:
             raise RaiseSignal("TypeError", "unsupported operand: None in arithmetic", node, frame)
         # strings
         if isinstance(l, (StrV, Opaque)) or isinstance(r, (StrV, Opaque)):
+            if isinstance(l, StrV) and l.s is not None and isinstance(op, (ast.Add, ast.Mod)):
+                # constant text: 'a' + 'b', 'name_%d' % 0, 'x%s_%s' % ('a', 1)
+                def const(v):
+                    if isinstance(v, StrV) and v.s is not None:
+                        return v.s
+                    if isinstance(v, Num) and v.r.as_int() is not None:
+                        return v.r.as_int()
+                    raise ValueError
+                try:
+                    if isinstance(op, ast.Add):
+                        if isinstance(r, StrV) and r.s is not None:
+                            return StrV(l.s + r.s)
+                    else:
+                        arg = tuple(const(x) for x in r.items) if isinstance(r, TupV) else const(r)
+                        return StrV(l.s % arg)
+                except (ValueError, TypeError):
+                    pass
             if isinstance(op, (ast.Add, ast.Mod)) or (isinstance(op, ast.Div) and isinstance(l, Opaque)):
                 amb = any(isinstance(x, Opaque) and x.ambient for x in (l, r))
                 sym = {ast.Add: "+", ast.Mod: "%", ast.Div: "/"}.get(type(op), "?")
@@ -268,6 +285,8 @@ class ExprMixin:
             return v.items
         if isinstance(v, ListV) and v.kind == "lit":
             return v.items
+        if isinstance(v, ObjV) and getattr(v.cls, "is_namedtuple", False):
+            return [self.obj_attr(v, f.name, frame, node) for f in v.cls.fields]
         return None
 
     def elementwise(self, f, l, r, frame, node):
@@ -521,6 +540,10 @@ class ExprMixin:
             return FuncV("repo", func=m, self_val=obj)
         if attr in c.class_attrs and c.class_attrs[attr] is not None:
             return self.eval(c.class_attrs[attr], Frame(None, c.module, {}))
+        if getattr(c, "is_namedtuple", False) and attr in ("_replace", "_asdict", "_fields"):
+            if attr == "_fields":
+                return TupV([StrV(f.name) for f in c.fields])
+            return FuncV("ext", dotted="record." + attr, self_val=obj)
         raise RaiseSignal("AttributeError", "%s has no attribute %s" % (c.name, attr), node, frame)
 
     def ex_Subscript(self, node, frame):
@@ -555,6 +578,12 @@ class ExprMixin:
         r = self.io_index(base, idx, frame, node)
         if r is not None:
             return r
+        if isinstance(base, ObjV) and getattr(base.cls, "is_namedtuple", False) and isinstance(idx, Num) and idx.r.as_int() is not None:
+            i = idx.r.as_int()
+            flds = base.cls.fields
+            if not -len(flds) <= i < len(flds):
+                raise RaiseSignal("IndexError", "tuple index out of range", node, frame)
+            return self.obj_attr(base, flds[i].name, frame, node)
         if isinstance(base, DictV):
             if isinstance(idx, StrV) and idx.s is not None:
                 if idx.s in base.items:
@@ -647,6 +676,8 @@ class ExprMixin:
                 for p in v.parts:
                     r = r + self.length(p, frame, node)
                 return r
+        if isinstance(v, ObjV) and getattr(v.cls, "is_namedtuple", False):
+            return Rat.const(len(v.cls.fields))
         if isinstance(v, ObjV) and "__len__" in v.cls.methods:
             r = self.call_function(FuncV("repo", func=v.cls.methods["__len__"], self_val=v), [], {}, frame, node, force_inline=True)
             if isinstance(r, Num):
@@ -763,7 +794,10 @@ class ExprMixin:
                 return ListV("opaque", path="filter(%s | %s)" % (key_str(val_key(it)), key_str(val_key(pv))), ty=ty, filtered=(it, val_key(pv)))
             base = ListV("fam", idx=idx, lo=lo, hi=hi, elem=val)
             return ListV("opaque", path="filter(%s | %s)" % (key_str(val_key(base)), key_str(cond)), ty=ANY, filtered=(base, cond))
-        return ListV("fam", idx=idx, lo=lo, hi=hi, elem=val)
+        out = ListV("fam", idx=idx, lo=lo, hi=hi, elem=val)
+        if isinstance(it, ListV) and it.kind == "series":
+            out.over_series = it   # a projection of the per-step records of a loop
+        return out
 
     def iter_family(self, it, frame, node, prefix="#b"):
         """(lo, hi, idx atom, element value at idx). Caller must release_bound()."""
